@@ -29,6 +29,7 @@ type Job struct {
 	HangS    float64 `json:"hang_s"`
 	NoMin    bool    `json:"no_min"`
 	Canaries string  `json:"canaries"`
+	Golden   string  `json:"golden"`
 }
 
 type JobResult struct {
@@ -122,6 +123,7 @@ func TestWorker(t *testing.T) {
 	}
 	Thorough = job.Tier == "thorough"
 	CanaryDir = job.Canaries
+	GoldenDir = job.Golden
 	res := &JobResult{Prop: job.Prop, Ops: map[string]int{}, Fired: map[string]int{}, IO: map[string]int{}, Probes: map[string]int{}, Counters: map[string]int{}}
 	start := time.Now()
 	write := func() {
@@ -175,6 +177,20 @@ func TestWorker(t *testing.T) {
 
 	switch job.Mode {
 	case "replay":
+		if raw, rerr := os.ReadFile(job.Replay); rerr == nil {
+			var g GoldenFile
+			if json.Unmarshal(raw, &g) == nil && len(g.Image) > 0 {
+				res.Runs = 1
+				if msg := CheckGolden(job.Replay); msg != "" {
+					res.Violation = &Violation{Prop: "C14", Oracle: "golden-image", OpKind: "open", Msg: msg}
+					fmt.Printf("REPLAY-VIOLATION property=C14 oracle=golden-image: %s\n", shortMsg(msg))
+				} else {
+					fmt.Printf("REPLAY-OK property=C14\n")
+				}
+				write()
+				return
+			}
+		}
 		plan, err := ReadPlan(job.Replay)
 		if err != nil {
 			res.Err = err.Error()
@@ -192,6 +208,41 @@ func TestWorker(t *testing.T) {
 		}
 		write()
 		return
+	}
+
+	if job.Mode == "golden-gen" {
+		// write golden images from a few C14 histories (run against the build to be recorded)
+		n := 0
+		for i := 0; n < job.Count && i < 400; i++ {
+			seed := Mix(job.Seed, MixStr("golden"), uint64(i))
+			r := runOne(t, &Plan{Prop: "C14", Profile: "C14", Seed: seed})
+			if r.Viol != nil || r.World == nil || len(r.World.Disks) == 0 {
+				continue
+			}
+			if top, ok := r.World.Files[0].Top(); !ok || len(top.State.Colls) == 0 || r.World.Files[0].Opaque {
+				continue
+			}
+			if r.World.Disks[0].Size() > 300000 {
+				continue
+			}
+			if WriteGolden(fmt.Sprintf("%s/g%02d.json", job.Golden, n), r.World, job.Replay) == nil {
+				n++
+			}
+		}
+		res.Runs = n
+		write()
+		return
+	}
+	if job.Prop == "C14" {
+		for _, f := range GoldenFiles() {
+			res.Counters["golden_images_checked"]++
+			if msg := CheckGolden(f); msg != "" {
+				res.Violation = &Violation{Prop: "C14", Oracle: "golden-image", OpKind: "open", Msg: msg}
+				res.ReplayOut = f
+				write()
+				return
+			}
+		}
 	}
 
 	// canaries: deliberate scenarios for known findings of this property
@@ -234,6 +285,7 @@ func TestWorker(t *testing.T) {
 		}
 	}
 
+	var firstHashes, firstSeeds []uint64
 	sigs := map[uint64]bool{}
 	ntsigs := map[uint64]bool{}
 	for i := 0; i < job.Count; i++ {
@@ -269,6 +321,10 @@ func TestWorker(t *testing.T) {
 		if r.NonTriv {
 			ntsigs[r.Sig] = true
 		}
+		if i < 4 && r.Viol == nil {
+			firstHashes = append(firstHashes, r.Hash)
+			firstSeeds = append(firstSeeds, seed)
+		}
 		if os.Getenv("VERIF_HASHES") != "" {
 			res.Hashes = append(res.Hashes, r.Hash)
 		}
@@ -303,6 +359,18 @@ func TestWorker(t *testing.T) {
 				res.ReplayOut = job.ReplayTo
 			}
 			break
+		}
+	}
+	// determinism spot check: re-execute the first runs; the hash of trace,
+	// schedule, disk images and verdict must repeat exactly
+	if res.Violation == nil {
+		for k, seed := range firstSeeds {
+			r := runOne(t, &Plan{Prop: job.Prop, Profile: job.Prop, Seed: seed})
+			res.Counters["determinism_reexecutions"]++
+			if r.Hash != firstHashes[k] {
+				res.Err = fmt.Sprintf("nondeterminism: seed %d gave hash %d first and %d when re-executed", seed, firstHashes[k], r.Hash)
+				break
+			}
 		}
 	}
 	for s := range sigs {
